@@ -487,17 +487,39 @@ class Group(_Handle):
         return Dataset._make(self.file, node, _join(parent.name, leaf))
 
     def copy(self, source, dest, name=None, shallow=False):
+        """H5Ocopy as h5py exposes it: the whole hierarchy below `source` is duplicated; hard links
+        among the copied objects stay shared inside the copy (cycles included), objects outside the
+        hierarchy that are linked from inside are duplicated too; shallow = immediate members only
+        (immediate subgroups keep their attributes but lose their members).  Pinned by
+        _script_copy in the differential validation."""
         dest._check_write("copy object")
-        src = self[source] if isinstance(source, (str, bytes)) else source
-        new = _copy.deepcopy(src.node)
-        if shallow and isinstance(new, GNode):
-            for k in list(new.links):
-                if isinstance(new.links[k], GNode):
-                    new.links[k] = GNode()
+        if isinstance(source, (str, bytes)):
+            r = self._resolve(source)
+            if r is None:
+                raise RuntimeError("Unable to copy object (object doesn't exist)")
+            srcnode, srcpath = r
+        else:
+            srcnode, srcpath = source.node, source.name
         if name is None:
-            name = src.name.rsplit("/", 1)[1]
+            name = srcpath.rsplit("/", 1)[1]
         if name in dest.node.links:
-            raise ValueError("Destination object already exists")
+            raise RuntimeError("Unable to copy object (destination object already exists)")
+        if shallow and isinstance(srcnode, GNode):
+            new = GNode()
+            new.attrs = _copy.deepcopy(srcnode.attrs)
+            if hasattr(srcnode, "order_tracked"):
+                new.order_tracked = srcnode.order_tracked
+            for k, ch in srcnode.links.items():
+                if isinstance(ch, GNode):
+                    sub = GNode()
+                    sub.attrs = _copy.deepcopy(ch.attrs)
+                    if hasattr(ch, "order_tracked"):
+                        sub.order_tracked = ch.order_tracked
+                    new.links[k] = sub
+                else:
+                    new.links[k] = _copy.deepcopy(ch)
+        else:
+            new = _copy.deepcopy(srcnode)
         dest.node.links[name] = new
 
 
@@ -1252,7 +1274,7 @@ def _script_upgrade(h5, path):
         make_old_property(h5, props, "e", "float", [])
         props["p"].attrs["unit"] = "V"
         plain = props.create_dataset("plain", data=[1.0, 2.0], dtype=float, chunks=True)
-        obs.append(("plain", len(plain.dtype), plain.name, isinstance(plain, h5.Dataset)))
+        obs.append(("plain", len(plain.dtype), bool(plain.dtype), plain.name, isinstance(plain, h5.Dataset)))
         sub = mk(mk(sec, "sections"), "sub")
         make_old_property(h5, mk(sub, "properties"), "z", "bool", [(True, 0.0, "", "", "", "")])
         data = mk(f, "data")
@@ -1332,6 +1354,87 @@ def _script_upgrade(h5, path):
     return obs
 
 
+def _script_copy(h5, path):
+    """H5Ocopy semantics nixio's copy functions rely on"""
+    obs = []
+
+    def mk(parent, name):
+        gcpl = h5.h5p.create(h5.h5p.GROUP_CREATE)
+        gcpl.set_link_creation_order(h5.h5p.CRT_ORDER_TRACKED | h5.h5p.CRT_ORDER_INDEXED)
+        return h5.Group(h5.h5g.create(parent.id, name.encode("utf-8"), gcpl=gcpl))
+
+    def ex(fn):
+        try:
+            return ("ok", fn())
+        except Exception as e:  # noqa
+            return ("exc", type(e).__name__)
+
+    def newfile(p):
+        fcpl = h5.h5p.create(h5.h5p.FILE_CREATE)
+        fcpl.set_link_creation_order(h5.h5p.CRT_ORDER_TRACKED | h5.h5p.CRT_ORDER_INDEXED)
+        return h5.File(h5.h5f.create(p, flags=h5.h5f.ACC_TRUNC, fapl=h5.h5p.create(h5.h5p.FILE_ACCESS),
+                                     fcpl=fcpl))
+    f = newfile(path)
+    g = newfile(path + b".second")
+    src = mk(f, "src")
+    blk = mk(src, "blk")
+    blk.attrs["eid"] = "B"
+    das = mk(blk, "das")
+    a = mk(das, "a")
+    a.attrs["eid"] = "A"
+    a.require_dataset("data", shape=(3,), dtype="f8", chunks=True, maxshape=(None,))[:] = [1.0, 2.0, 3.0]
+    mk(das, "x").attrs["eid"] = "X"
+    t = mk(mk(blk, "tags"), "t")
+    t.attrs["eid"] = "T"
+    mk(t, "refs")["A"] = a
+    mk(mk(a, "dims"), "1")["A"] = a                      # a cycle
+    o = mk(mk(f, "outside"), "o")
+    o.attrs["eid"] = "O"
+    t["meta"] = o                                        # a link that leaves the hierarchy
+    dst = mk(f, "dst")
+    src.copy(source="blk", dest=dst, name="copy")
+    c = dst["copy"]
+    obs.append(("copy", list(c.keys()), list(c["das"].keys()), c.attrs["eid"], list(c["tags/t"].keys())))
+    c["das/a"].attrs["mark"] = "m"
+    obs.append(("sharing", c["tags/t/refs/A"].attrs.get("mark"), a.attrs.get("mark"),
+                c["das/a/dims/1/A"].attrs.get("mark")))
+    c["tags/t/meta"].attrs["mk"] = "1"
+    obs.append(("outside-duplicated", o.attrs.get("mk"), c["tags/t/meta"].attrs.get("eid")))
+    c["das/a/data"][0:1] = [9.0]
+    obs.append(("data", [float(v) for v in c["das/a/data"][:]], [float(v) for v in a["data"][:]],
+                tuple(c["das/a/data"].shape)))
+    a.attrs["later"] = 1
+    obs.append(("independent", c["das/a"].attrs.get("later")))
+    obs.append(("dup", ex(lambda: src.copy(source="blk", dest=dst, name="copy"))[1], list(dst.keys())))
+    src.copy(source="blk", dest=dst, name="sh", shallow=True)
+    sh = dst["sh"]
+    obs.append(("shallow", list(sh.keys()), [list(sh[k].keys()) for k in sh.keys()], sh.attrs["eid"]))
+    a2 = mk(f, "a2")
+    a2.attrs["n"] = 1
+    a2.require_dataset("d", shape=(2,), dtype="i8")[:] = [5, 6]
+    sg = mk(a2, "sg")
+    sg.attrs["k"] = "v"
+    mk(sg, "deep")
+    f.copy(source="a2", dest=dst, name="a2s", shallow=True)
+    z = dst["a2s"]
+    obs.append(("shallow-members", list(z.keys()), [int(v) for v in z["d"][:]], z["sg"].attrs.get("k"),
+                list(z["sg"].keys()), int(z.attrs["n"])))
+    src.copy(source="blk", dest=g, name="xf")
+    g["xf/das/a"].attrs["z"] = 1
+    obs.append(("cross-file", list(g["xf/das"].keys()), g["xf/tags/t/refs/A"].attrs.get("eid"),
+                int(g["xf/tags/t/refs/A"].attrs.get("z")), a.attrs.get("z")))
+    src.copy(source="blk", dest=g)
+    obs.append(("default-name", list(g.keys())))
+    f.copy(source="src/blk/das/a", dest=dst, name="apath")
+    obs.append(("path-source", list(dst["apath"].keys()), list(dst.keys())))
+    obs.append(("missing-source", ex(lambda: src.copy(source="nope", dest=dst, name="q"))[1], "q" in dst))
+    c.attrs.modify("eid", _np.bytes_("NEW"))
+    obs.append(("modify-bytes", c.attrs["eid"], blk.attrs["eid"]))
+    f.close()
+    g.close()
+    return obs
+
+
 def validate_against_h5py():
     import os
     import shutil
@@ -1351,6 +1454,13 @@ def validate_against_h5py():
     finally:
         shutil.rmtree(tmp, ignore_errors=True)
     fake = fake + _script_upgrade(MODULE, "/virtual/u.h5")
+    reset()
+    tmp = tempfile.mkdtemp(prefix="vf_fakeh5_")
+    try:
+        real = real + _script_copy(h5py, os.path.join(tmp, "c.h5").encode())
+    finally:
+        shutil.rmtree(tmp, ignore_errors=True)
+    fake = fake + _script_copy(MODULE, b"/virtual/c.h5")
     reset()
     if len(real) != len(fake):
         raise AssertionError("fakeh5 script length differs")
